@@ -26,6 +26,10 @@ type CtSpec struct {
 	Deg   int `json:"deg"`
 	Drop  int `json:"drop"`
 	Scale int `json:"scale"`
+	// Dims > 0: sparsely packed operand, LogDimensions.Cols reduced by Dims (metadata only, drawn independently per operand)
+	Dims int `json:"dims,omitempty"`
+	// Unbatched: IsBatched = false (coefficient encoding)
+	Unbatched bool `json:"unbatched,omitempty"`
 }
 
 // OpdSpec describes the second operand of a binary operation.
@@ -213,7 +217,18 @@ func (e *env) mkCt(s CtSpec, rng *h.SplitMix) *rlwe.Ciphertext {
 		fillPoly(r, ct.Value[i], rng, 0)
 	}
 	ct.Scale = e.scale(s.Scale, rng)
+	s.applyMeta(ct.MetaData)
 	return ct
+}
+
+// applyMeta sets the independently drawn plaintext metadata of an operand.
+func (s CtSpec) applyMeta(m *rlwe.MetaData) {
+	if s.Dims > 0 {
+		m.LogDimensions.Cols = maxInt(0, m.LogDimensions.Cols-s.Dims)
+	}
+	if s.Unbatched {
+		m.IsBatched = false
+	}
 }
 
 func (e *env) mkPt(s CtSpec, rng *h.SplitMix) *rlwe.Plaintext {
@@ -228,6 +243,7 @@ func (e *env) mkPt(s CtSpec, rng *h.SplitMix) *rlwe.Plaintext {
 	}
 	fillPoly(e.rp.RingQ().AtLevel(level), pt.Value, rng, 0)
 	pt.Scale = e.scale(s.Scale, rng)
+	s.applyMeta(pt.MetaData)
 	return pt
 }
 
@@ -810,6 +826,12 @@ func runEval(c EvalCase, rec *h.Rec) error {
 	rec.Classf("hist=%d", len(c.Hist))
 	rec.Classf("poison=%d", c.Poison)
 	rec.Classf("outhist=%d", len(c.OutHist))
+	if o.binary && isElementKind(kind) {
+		rec.Classf("dims: op0 %d op1 %d", c.A.Dims, c.B.Dims)
+	}
+	if c.A.Unbatched || c.B.Unbatched {
+		rec.Classf("unbatched: op0 %v op1 %v", c.A.Unbatched, c.B.Unbatched)
+	}
 	if dirty {
 		rec.Class("out=reused")
 	} else if al == 0 || al == 3 {
@@ -979,6 +1001,17 @@ func runEval(c EvalCase, rec *h.Rec) error {
 		sr := ""
 		if o.binary && isElementKind(kind) {
 			sr = scaleRel(B.scaleNE)
+		}
+		if o.binary && isElementKind(kind) && al != 3 && al != 4 {
+			switch {
+			case c.A.Dims < c.B.Dims:
+				sr += "|dims:op0>op1"
+			case c.A.Dims > c.B.Dims:
+				sr += "|dims:op0<op1"
+			}
+		}
+		if c.A.Unbatched {
+			sr += "|unbatched"
 		}
 		oh := ""
 		if dirty {
